@@ -114,11 +114,12 @@ func invariants(p models.Point, out *[]finding) {
 			}
 			seen[string(t.Key)] = true
 		}
-		n := 0
+		n, empty := 0, 0
 		it := p.FieldIterator()
 		maxField := 0
 		for it.Next() {
 			if len(it.FieldKey()) == 0 {
+				empty++
 				continue
 			}
 			n++
@@ -126,12 +127,15 @@ func invariants(p models.Point, out *[]finding) {
 				maxField = l
 			}
 		}
-		if n == 0 {
-			feat := "other"
-			if ft := fieldText(p); strings.HasPrefix(ft, "=") || strings.Contains(ft, ",=") {
-				feat = "empty-field-key"
+		if empty > 0 {
+			// a field without a name: not a well-formed line (and, if it is the only field, the point has no usable field)
+			where := "after-comma"
+			if strings.HasPrefix(fieldText(p), "=") {
+				where = "leading"
 			}
-			*out = append(*out, finding{"point/no-field/" + feat, fmt.Sprintf("point %q has no field with a non-empty key", pointText(p))})
+			*out = append(*out, finding{"point/empty-field-key/" + where, fmt.Sprintf("point %q has a field with an empty key (%d named fields)", pointText(p), n)})
+		} else if n == 0 {
+			*out = append(*out, finding{"point/no-field", fmt.Sprintf("point %q has no field", pointText(p))})
 		}
 		// series key + field key: the composite key the storage engine builds is key + 4-byte separator + field key
 		if sz := len(p.Key()) + 4 + maxField; sz > models.MaxKeyLength {
@@ -263,10 +267,18 @@ func httpParser(in []byte, prec string, whole parsed, out *[]finding) {
 		}
 	default:
 		if pp == nil || len(pp.Points) != len(whole.pts) || pp.RawSize != len(in) {
-			*out = append(*out, finding{"http/points-mismatch", fmt.Sprintf("points.Parser returned %+v, models %d points", pp, len(whole.pts))})
+			*out = append(*out, finding{"http/points-mismatch", fmt.Sprintf("points.Parser returned nil=%v, models %d points", pp == nil, len(whole.pts))})
 			return
 		}
 		for i, p := range pp.Points {
+			if whole.pts[i].Time().Equal(defaultTime) {
+				// no timestamp in the line: points.Parser stamps time.Now(); check it is representable, then
+				// normalise so that observations stay deterministic
+				if ns := p.UnixNano(); ns < models.MinNanoTime || ns > models.MaxNanoTime {
+					*out = append(*out, finding{"http/default-time-out-of-range", fmt.Sprintf("point %d has default time %v", i, p.Time())})
+				}
+				p.SetTime(defaultTime)
+			}
 			invariants(p, out)
 			if string(p.Key()) != string(whole.pts[i].Key()) || fieldText(p) != fieldText(whole.pts[i]) {
 				*out = append(*out, finding{"http/points-mismatch", fmt.Sprintf("point %d: %q vs %q", i, pointText(p), pointText(whole.pts[i]))})
@@ -815,7 +827,7 @@ func replay(c *vlib.Ctx, raw json.RawMessage) (bool, string) {
 func TestCheck(t *testing.T) {
 	vlib.Main(t, &vlib.Check{
 		ID: "C12", Level: "exploration",
-		Rule: "family bytes: every byte string of length 0..6 (thorough 0..7) over {m , = space \" \\ 1 i \\n - t}; family mutants: 6 valid templates, every single deletion/duplication/substitution by each of the 11 alphabet bytes + {# tab NUL e . u CR T 0xff} at precisions ns and s (thorough: additionally every second mutation over the 11-byte alphabet); family lines: every sequence of 1..3 (thorough 4) of 12 lines of known well-formedness (4 valid incl. quoted newline and escapes, 5 malformed incl. duplicate tag and trailing backslash, blank, whitespace, comment) joined by \\n with/without final \\n, reference = concatenation of the known verdicts; family limits: composite key size MaxKeyLength−1/=/+1 (3 shapes) and timestamps at Min/Max±1 and int64 overflow × {ns,us,ms,s}. Per input: models.ParsePointsWithPrecision (and http/points.Parser for limits, mutants, lines≤2, bytes≤4/5) must return within 10 s without panic; every returned point: non-empty measurement, ≥1 field, readable fields, unique tag keys, key+4+field ≤ MaxKeyLength, time in [MinNanoTime,MaxNanoTime]; per-line exactness: result = concatenation of the results of the \\n-separated lines parsed alone and error = their errors joined (inputs with a '\"' may keep a newline inside a group that contains a quote). non-trivial = input returns ≥1 point, or contains a newline, or has a by-construction expectation (cases distinct by construction)",
+		Rule: "family bytes: every byte string of length 0..6 (thorough 0..7) over {m , = space \" \\ 1 i \\n - t}; family mutants: 6 valid templates, every single deletion/duplication/substitution by each of the 11 alphabet bytes + {# tab NUL e . u CR T 0xff} at precisions ns and s (thorough: additionally every second mutation over the 11-byte alphabet); family lines: every sequence of 1..3 (thorough 4) of 12 lines of known well-formedness (4 valid incl. quoted newline and escapes, 5 malformed incl. duplicate tag and trailing backslash, blank, whitespace, comment) joined by \\n with/without final \\n, reference = concatenation of the known verdicts; family limits: composite key size MaxKeyLength−1/=/+1 (3 shapes) and timestamps at Min/Max±1 and int64 overflow × {ns,us,ms,s}. Per input: models.ParsePointsWithPrecision (and http/points.Parser for limits, mutants, lines≤2, bytes≤4/5) must return within 10 s without panic; every returned point: non-empty measurement, ≥1 field, no field with an empty key, readable fields, unique tag keys, key+4+field ≤ MaxKeyLength, time in [MinNanoTime,MaxNanoTime]; per-line exactness: result = concatenation of the results of the \\n-separated lines parsed alone and error = their errors joined (inputs with a '\"' may keep a newline inside a group that contains a quote). non-trivial = input returns ≥1 point, or contains a newline, or has a by-construction expectation (cases distinct by construction)",
 		Assumptions: []string{
 			"arbitrary bytes beyond length 7 / outside the alphabet are not covered except through the template mutations",
 			"per-line exactness on the bytes/mutants families is metamorphic (single-line results come from the parser itself); the lines and limits families use verdicts known by construction",
